@@ -64,7 +64,11 @@ Unbound == 0
 
 \* statement kinds that share a block structure
 IfKinds == {"if", "ifw"}
-LoopKinds == {"while", "for", "forv"}
+LoopKinds == {"while", "for", "forv", "whilev"}
+\* whilev(t, id, body, orelse) -- `while s:` where s is a local bound right before the loop: t = "mlist" `s = [0]` and the
+\* body starts with `s.pop()`; "elist" `s = []`; "tuple" `s = (0,)`; "one" `s = 1`; "zero" `s = 0`
+AlwaysTrueTests == {"tuple", "one"}      \* really always true: the loop is left by break only
+NeverTrueTests == {"elist", "zero"}       \* the body never runs
 WithKinds == {"with", "withas"}
 
 Out(norm, brk, cont, ret, exc, seen) ==
@@ -176,6 +180,16 @@ ExecStmt(s, envs, mode) ==
                       orelse |-> s.orelse], envs, mode)
       \* `match subj():` -- subj() is a call
       [] s.k = "match" -> Merge(ExecCases(s, 1, envs, mode), Out({}, {}, {}, {}, envs, {}))
+      \* `while s:` with a known local s.  Liberal: an ordinary loop (opaque, or `while True` for the always-true tests).
+      \* Strict: always-true tests behave like `while True`; never-true tests skip the body and run the else clause;
+      \* the one-element list that the body pops first runs the body exactly once (s.pop() is a call)
+      [] s.k = "whilev" ->
+            IF mode = "liberal" \/ s.t \in AlwaysTrueTests
+            THEN ExecStmt([k |-> "while", id |-> s.id, true |-> s.t \in AlwaysTrueTests, body |-> s.body, orelse |-> s.orelse], envs, mode)
+            ELSE IF s.t \in NeverTrueTests THEN Exec(s.orelse, envs, mode)
+            ELSE LET b == Exec(s.body, envs, mode)
+                     o == Exec(s.orelse, b.norm \cup b.cont, mode)
+                 IN Out(o.norm \cup b.brk, o.brk, o.cont, b.ret \cup o.ret, b.exc \cup o.exc \cup envs, b.seen \cup o.seen)
       \* ---- inner scopes ----
       \* a read of v from a comprehension element / an immediately called lambda / a class body happens now; the
       \* statement contains a call (it(), the lambda, the metaclass)
